@@ -45,8 +45,10 @@ _cand_cache = {}
 def candidates(residues):
     """All typed atom pairs within radius sum + 0.5 (+eps), computed once per
     residue list: (key, dist, rsum, same_residue, same_name, occ_sum, both_nucleotides)."""
-    ck = (id(residues[0]) if residues else 0, len(residues))
-    if _cand_cache.get("k") == ck:
+    # the cache holds the residue objects themselves (so their ids cannot be reused by later objects) and is valid
+    # only for the very same objects in the same order
+    held = _cand_cache.get("held")
+    if held is not None and len(held) == len(residues) and all(a is b for a, b in zip(held, residues)):
         return _cand_cache["v"]
     atoms = []
     for ri, r in enumerate(residues):
@@ -72,7 +74,7 @@ def candidates(residues):
                 oa = 1.0 if A.occupancy is None else A.occupancy
                 ob = 1.0 if Bm.occupancy is None else Bm.occupancy
                 out.append((frozenset(((ri, ai), (rj, aj))), float(D[a - s, b]), float(lim[a - s, b]), ri == rj, A.name == Bm.name, oa + ob, na and nb))
-    _cand_cache["k"] = ck
+    _cand_cache["held"] = list(residues)
     _cand_cache["v"] = out
     return out
 
